@@ -48,6 +48,7 @@ def harness_hash():
 
 def spec_hash():
     return sha_files(walk(os.path.join(VERIF, "spec"), (".tla", ".cfg")) + walk(os.path.join(VERIF, "lib"), (".py",))
+                     + walk(os.path.join(VERIF, "scenarios"), (".json",))
                      + [os.path.join(VERIF, "known_findings.json")])
 
 
